@@ -196,3 +196,63 @@ def block_edge_filter(blocked):
 def require(cond, msg):
     if not cond:
         raise Broken(msg)
+
+
+NEGP = {"eq": "ne", "ne": "eq", "ult": "uge", "uge": "ult", "ugt": "ule", "ule": "ugt", "slt": "sge", "sge": "slt", "sgt": "sle", "sle": "sgt"}
+
+
+def _boolish(e):
+    if e[0] == "icmp":
+        return True
+    if e[0] == "select":
+        return all(x[0] == "c" or _boolish(x) for x in (e[2], e[3]))
+    if e[0] == "bin" and e[1] in ("or", "and", "xor"):
+        return _boolish(e[2]) and (_boolish(e[3]) or e[3][0] == "c")
+    return False
+
+
+def leaf_atoms(e, polarity, out):
+    """leaf comparisons (pred, a, b) implied by boolean expression e having truth value `polarity`"""
+    if e[0] == "icmp":
+        pred, a, b = e[1], e[2], e[3]
+        if pred in ("ne", "eq") and b == ("c", 0) and _boolish(a):
+            return leaf_atoms(a, polarity if pred == "ne" else not polarity, out)
+        out.append((pred if polarity else NEGP[pred], a, b))
+        return
+    if e[0] == "bin" and e[1] == "xor" and e[3] in (("c", 1), ("c", -1)):
+        return leaf_atoms(e[2], not polarity, out)
+    if e[0] == "bin" and e[1] == "or" and not polarity:
+        leaf_atoms(e[2], False, out)
+        leaf_atoms(e[3], False, out)
+        return
+    if e[0] == "bin" and e[1] == "and" and polarity and _boolish(e):
+        leaf_atoms(e[2], True, out)
+        leaf_atoms(e[3], True, out)
+        return
+    if e[0] == "select" and _boolish(e):
+        # select c, K!=0, x  == c || x ; select c, x, 0 == c && x
+        if not polarity and e[2][0] == "c" and e[2][1] != 0:
+            leaf_atoms(e[1], False, out)
+            leaf_atoms(e[3], False, out)
+        elif polarity and e[3] == ("c", 0):
+            leaf_atoms(e[1], True, out)
+            leaf_atoms(e[2], True, out)
+        return
+
+
+def dom_leaf_atoms(f, inst):
+    """leaf comparisons implied at `inst` by all dominating conditional edges"""
+    from . import ir as _ir
+    out = []
+    for b in f.blocks:
+        t = b.insts[-1]
+        if t.op != "br" or len(t.d["succ"]) != 2 or t.d["succ"][0] == t.d["succ"][1]:
+            for s in b.succ if t.op == "switch" else []:
+                if len(f.blocks[s].pred) == 1 and f.bdom(s, inst.blk.id):
+                    out += [a for a in _ir.edge_atoms(f, b.id, s) if a[0] in NEGP]
+            continue
+        for k, s in enumerate(t.d["succ"]):
+            if len(f.blocks[s].pred) == 1 and f.bdom(s, inst.blk.id):
+                e = _ir.expr(f, t.args[0], 8)
+                leaf_atoms(e if e[0] in ("icmp", "bin", "select") else ("icmp", "ne", e, ("c", 0)), k == 0, out)
+    return out
